@@ -65,3 +65,31 @@ def _(self: Obj(Verifier, records=ListOf(Opaque(), 0)), name: Const("SW version"
     modifies(self.records)
     sample_with(lambda rnd: {"self": Verifier("t"), "name": "SW version", "value": rnd.choice([None, -1, 0, 255, 256, 65535, 65536, 1 << 32]),
                              "bit_range": rnd.choice([8, 16, 32]), "important": True})
+
+
+# ---- image array entry: the hash algorithm an entry declares is the one its hash is computed with -----------------------------------
+from spsdk.crypto.hash import EnumHashAlgorithm  # noqa: E402
+from spsdk.image.ahab.ahab_data import AHABSignHashAlgorithmV1, AHABSignHashAlgorithmV2  # noqa: E402
+from spsdk.image.ahab.ahab_iae import ImageArrayEntry, ImageArrayEntryV2  # noqa: E402
+
+concrete_ok("spsdk.utils.spsdk_enum:SpsdkEnum.from_tag", "spsdk.utils.spsdk_enum:SpsdkEnum.from_label", "spsdk.utils.spsdk_enum:SpsdkEnum.from_attr")
+DECLARED = {0: EnumHashAlgorithm.SHA256, 1: EnumHashAlgorithm.SHA384, 2: EnumHashAlgorithm.SHA512, 3: EnumHashAlgorithm.SM3}
+_IAE_FLAGS = [(t << 8) | lo for t in range(4) for lo in (0, 0x7F, 0xF80000FF)]
+
+
+@contract("spsdk.image.ahab.ahab_iae:ImageArrayEntry.get_hash_from_flags")
+def _(self: Union[Obj(ImageArrayEntry), Obj(ImageArrayEntryV2)], flags: OneOf(*_IAE_FLAGS)) -> Opaque():
+    # the four hash tags SPSDK can compute (SHA-256/384/512, SM3; the SHA-3 tags of container version 2 have no generic algorithm), the
+    # other bits of the flag word at both extremes
+    returns(DECLARED[flags // 256 % 8], label="hash-of-the-declared-algorithm")
+    pure()
+    sample_with(lambda rnd: {"self": object.__new__(rnd.choice([ImageArrayEntryV2, ImageArrayEntry])), "flags": rnd.choice(_IAE_FLAGS)})
+
+
+@contract("spsdk.image.ahab.ahab_iae:ImageArrayEntry.create_flags")
+def _(cls: OneOf(ImageArrayEntry, ImageArrayEntryV2), image_type: Range(0, 15), core_id: Range(0, 15),
+      hash_type: OneOf(AHABSignHashAlgorithmV1.SHA256, AHABSignHashAlgorithmV1.SHA384, AHABSignHashAlgorithmV1.SHA512, AHABSignHashAlgorithmV1.SM3),
+      is_encrypted: bool, boot_flags: Range(0, 0x7FFF)) -> int:
+    returns(image_type + core_id * 16 + hash_type.tag * 256 + (1 if is_encrypted else 0) * 2 ** cls.FLAGS_IS_ENCRYPTED_OFFSET
+            + boot_flags * 2 ** cls.FLAGS_BOOT_FLAGS_OFFSET, label="type-core-hash-encrypted-bootflags-in-their-fields")
+    pure()
